@@ -59,8 +59,25 @@ func rulePDF417Encoder(c *Ctx) {
 		}
 		matched := 0
 		var tried []string
+		// candidate predicates: closures of the parent and one-argument boolean functions it calls
+		var cands []*ssa.Function
+		seenC := map[*ssa.Function]bool{}
 		for _, cl := range parent.AnonFuncs {
-			if cl.Parent() != parent || len(cl.Params) != 1 || !isBoolType(cl.Signature.Results().At(0).Type()) {
+			if cl.Parent() == parent {
+				cands = append(cands, cl)
+				seenC[cl] = true
+			}
+		}
+		c.P.deepEach(parent, 1, func(s DeepSite) {
+			if call, ok := s.Ins.(*ssa.Call); ok {
+				if cal := call.Common().StaticCallee(); cal != nil && isRepoFunc(cal) && cal.Blocks != nil && cal.Pkg == parent.Pkg && !seenC[cal] {
+					seenC[cal] = true
+					cands = append(cands, cal)
+				}
+			}
+		})
+		for _, cl := range cands {
+			if len(cl.Params) != 1 || cl.Signature.Results().Len() != 1 || !isBoolType(cl.Signature.Results().At(0).Type()) {
 				continue
 			}
 			n := NewNormer(c.P)
@@ -185,6 +202,12 @@ func rulePDF417Encoder(c *Ctx) {
 				var got []string
 				for _, a := range call.Common().Args {
 					got = append(got, n.NormAt(s, a).String())
+				}
+				if pdfIndicatorContext(c, calleeOf(call)) != nil {
+					// P4 evaluates the indicator formulas with the parameters resolved through this very call:
+					// the roles are those of the data flow, however the values are handed over
+					c.Check(R6, "pdf417.EncodeWithColor/"+calleeOf(call).Name()+"-args", call.Pos(), true, "roles resolved through the calling context (P4)", fmt.Sprint(got))
+					continue
 				}
 				c.Check(R6, "pdf417.EncodeWithColor/"+calleeOf(call).Name()+"-args", call.Pos(), fmt.Sprint(got) == "[r rows cols level]", "[r rows cols level]", fmt.Sprint(got))
 			}
